@@ -178,6 +178,21 @@ def run_python(mod, qualname, args, n, draws):
         mod.__dict__['random'] = saved
 
 
+def run_python_fn(mod, qualname, args, draws):
+    """a plain function returning a list of floats -> same observation format as a generator run to its end"""
+    fake = FakeRandom(draws)
+    saved = mod.__dict__.get('random')
+    mod.__dict__['random'] = fake
+    try:
+        try:
+            return [bits(v) for v in getattr(mod, qualname)(*args)], 'returned'
+        except Exception as e:  # noqa: BLE001
+            nm = type(e).__name__
+            return [], 'raised ' + (nm if nm in EXC_NAMES else 'Other')
+    finally:
+        mod.__dict__['random'] = saved
+
+
 def enc_arg(t, v):
     if t == 'A':
         return str(bits(v))
@@ -213,6 +228,11 @@ def showExc : PyExc → String
   | .Other => "Other" | .OutOfFuel => "OutOfFuel"
 def showStop : Stop → String
   | .suspended => "suspended" | .returned => "returned" | .raised e => "raised " ++ showExc e | .outOfFuel => "outOfFuel"
+def showFn (r : Except PyExc (List Float)) : String :=
+  match r with
+  | .ok l => (if l.isEmpty then "-" else ",".intercalate (l.map fun x => toString x.toBits.toNat)) ++ " returned"
+  | .error .OutOfFuel => "- outOfFuel"
+  | .error e => "- raised " ++ showExc e
 def showRes (r : List Float × Stop) : String :=
   (if r.1.isEmpty then "-" else ",".intercalate (r.1.map fun x => toString x.toBits.toNat)) ++ " " ++ showStop r.2
 ''')
@@ -225,9 +245,11 @@ def showRes (r : List Float × Stop) : String :=
         somes = ', '.join('some v%d' % i for i in range(len(ps)))
         arms.append('  | "%d" :: fuel :: n :: draws :: %s[] =>\n'
                     '    (match fuel.toNat?, n.toNat?, parseDraws draws, %s with\n'
-                    '     | some fuel, some n, some ds, %s => showRes (Src.%s.%s fuel n (fun i => ds.getD i 0) %s)\n'
+                    '     | some fuel, some n, some ds, %s => %s (Src.%s.%s fuel %s(fun i => ds.getD i 0) %s)\n'
                     '     | %s => "bad-args")' % (
-                        k, ''.join(nm + ' :: ' for nm in names), parses, somes, short, spec['lean_name'],
+                        k, ''.join(nm + ' :: ' for nm in names), parses, somes,
+                        'showRes' if spec['kind'] == 'generator' else 'showFn', short, spec['lean_name'],
+                        'n ' if spec['kind'] == 'generator' else '',
                         ' '.join('v%d' % i for i in range(len(ps))), ', '.join('_' for _ in range(len(ps) + 3))))
     body.append('def handle (ws : List String) : String :=\n  match ws with\n' + '\n'.join(arms) + '\n  | _ => "bad-function"\n')
     body.append('''partial def loop (h : IO.FS.Stream) (out : IO.FS.Stream) : IO Unit := do
@@ -314,7 +336,7 @@ def run(pids, quick=False, seed=0, verbose=True):
     sn_mod = types.ModuleType('c15_snippets')
     exec(compile(SNIPPET_SRC, 'c15_snippets', 'exec'), sn_mod.__dict__)
     rng = random.Random('py2lean-c15-selftest-%d' % seed)
-    fns = [(sp, module_name.split('.')[-1]) for sp in specs if sp['kind'] == 'generator'] + \
+    fns = [(sp, module_name.split('.')[-1]) for sp in specs] + \
           [(sp, 'snippets') for sp in SNIPPET_SPECS]
     lines, meta = [], []
     for k, (spec, short) in enumerate(fns):
@@ -325,6 +347,8 @@ def run(pids, quick=False, seed=0, verbose=True):
             if list(spec['params']) != ['start', 'stop', 'count', 'factor', 'jitter']:
                 raise common.InfraError('no argument family for %s' % spec['qualname'])
             cases = [(a, py_args_backoff(rng, a), n, d) for a, n, d in backoff_cases(rng, quick)]
+            if spec['kind'] == 'function':       # the whole list: the script must cover every value
+                cases = [(a, pa, 0, d + [rng.random() for _ in range(16)]) for a, pa, n, d in cases[::2]]
             pymod = mod
         for args, pyargs, n, draws in cases:
             toks = [str(k), str(FUEL), str(n), ','.join(str(bits(x)) for x in draws) if draws else '-']
@@ -363,7 +387,10 @@ def run(pids, quick=False, seed=0, verbose=True):
             continue
         lean_vals = [] if vals_s == '-' else [int(x) for x in vals_s.split(',')]
         with common.time_limit(20):
-            want_vals, want_how = run_python(pymod, spec['qualname'], pyargs, n, draws)
+            if spec['kind'] == 'function':
+                want_vals, want_how = run_python_fn(pymod, spec['qualname'], pyargs, draws)
+            else:
+                want_vals, want_how = run_python(pymod, spec['qualname'], pyargs, n, draws)
         r['compared'] += 1
         if want_how.startswith('raised'):
             r['python_raises'] += 1
